@@ -43,6 +43,8 @@ func main() {
 			oracleQueue(os.Args[3], os.Args[4])
 		case "debounce":
 			oracleDebounce(os.Args[3], os.Args[4])
+		case "sender":
+			oracleSender(os.Args[3], os.Args[4])
 		default:
 			fmt.Fprintln(os.Stderr, "unknown stream", os.Args[2])
 			os.Exit(2)
@@ -63,6 +65,8 @@ func execOps(stream, in, outp string) {
 		s = newQueueSUT(0)
 	case "debounce":
 		s = newDebSUT(5, 20, true)
+	case "sender":
+		s = newSndSUT(0, 1)
 	default:
 		fmt.Fprintln(os.Stderr, "unknown stream", stream)
 		os.Exit(2)
@@ -86,6 +90,8 @@ func gen(stream string, seed uint64, n int, outp string) {
 			genQueueCase(r, c, out)
 		case "debounce":
 			genDebounceCase(r, c, out)
+		case "sender":
+			genSenderCase(r, c, out)
 		default:
 			fmt.Fprintln(os.Stderr, "unknown stream", stream)
 			os.Exit(2)
